@@ -633,7 +633,14 @@ func (t *runner) test(prog []op, old bool, class string) {
 		return ""
 	}()
 	if perr != "" {
-		e.Fail("writer-panic", "the page tree writer panics: "+perr, cs)
+		sig := "writer-panic"
+		var pa, pb int
+		if n, _ := fmt.Sscanf(perr, "invalid subtree node range %d, %d", &pa, &pb); n == 2 && pb-pa == 1 && pa >= maxDegree {
+			// mergeNodes asked to merge a single trailing node that follows a full run of
+			// maxDegree nodes of one depth (left behind by merge() of a shallower range)
+			sig = "panic:mergeNodes-single-node-after-full-run"
+		}
+		e.Fail(sig, "the page tree writer panics: "+perr, cs)
 		e.Line("impl.obs", "%s panic", id)
 		return
 	}
@@ -1033,6 +1040,16 @@ func main() {
 		g.close(1)
 		g.appendPages(0, 1, old)
 		t.test(g.prog, old, "corpus")
+	}
+
+	// known finding: 15 subtrees of depth 2, 8 of depth 1, then a range of 9 pages: Close panics
+	{
+		g := newGen(e)
+		g.palette = 0
+		g.appendPages(0, 15*256+8*16, false)
+		g.newRange(0)
+		g.appendPages(1, 9, false)
+		t.test(g.prog, false, "corpus-merge-panic")
 	}
 
 	// deeply nested ranges: the page tree gets taller than 64 levels
